@@ -77,7 +77,12 @@ func c04Ops(thorough bool) []c04Op {
 			if am == nil {
 				am = map[string]metadata.Metadata{}
 			}
-			return []*ledger.Log{ledger.NewTransactionLogWithDate(t, am, ledger.Time{})}
+			l := ledger.NewTransactionLogWithDate(t, am, ledger.Time{})
+			if ref {
+				// the same key on both ledgers of the bucket: a key belongs to its ledger
+				l = l.WithIdempotencyKey("ik-" + id.String())
+			}
+			return []*ledger.Log{l}
 		}}
 	}
 	p := func(s, d, a string, n int64) ledger.Posting { return ledger.NewPosting(s, d, a, big.NewInt(n)) }
@@ -470,6 +475,22 @@ func (st *c04State) judge(withPIT bool) (string, string) {
 				cur, err := s.GetTransactions(ctx, ledgerstore.NewGetTransactionsQuery(ledgerstore.NewPaginatedQueryOptions(ledgerstore.PITFilterWithVolumes{}).WithPageSize(100)))
 				if err != nil || len(cur.Data) != len(ids) {
 					return "list-transactions", fmt.Sprintf("ledger %s: GetTransactions returns %v items (%v), the log holds %d", ldg, cur, err, len(ids))
+				}
+			}
+			for _, l := range logs {
+				if l.IdempotencyKey == "" {
+					continue
+				}
+				got, err := s.ReadLogWithIdempotencyKey(ctx, l.IdempotencyKey)
+				var first *ledger.ChainedLog
+				for _, x := range logs {
+					if x.IdempotencyKey == l.IdempotencyKey {
+						first = x
+						break
+					}
+				}
+				if err != nil || got == nil || got.ID.Cmp(first.ID) != 0 || string(got.Hash) != string(first.Hash) {
+					return "log-by-idempotency-key", fmt.Sprintf("ledger %s: ReadLogWithIdempotencyKey(%s) = %v %v, this ledger's entry with that key is %s", ldg, l.IdempotencyKey, got, err, first.ID)
 				}
 			}
 			if len(logs) > 0 {
